@@ -9,9 +9,9 @@ use encoding_rs::Encoding;
 use proptest::prelude::*;
 
 /// class representatives common to all encoders
-pub const COMMON: [u32; 44] = [
+pub const COMMON: [u32; 48] = [
     0x61, 0x00, 0x0E, 0x0F, 0x1B, 0x5C, 0x7E, 0x7F, 0x80, 0xA5, 0x203E, 0x2212, 0xFF0D, 0xE9, 0x20AC, 0x3042, 0x30A2, 0xFF71, 0xFF61, 0xFF9F, 0x4E00, 0xAC00, 0x2550, 0x5341, 0xE5E5, 0xE7C7, 0xE78D, 0xE81E, 0xFE10, 0x1E3F, 0xF780, 0xF7FF, 0xFFFD,
-    0xFFFF, 0x10000, 0x1F600, 0x2000B, 0x10FFFF, 0x3E8, 0x2710, 0x186A0, 0xF4240, 0x9FA6, 0xA0,
+    0xFFFF, 0x10000, 0x1F600, 0x2000B, 0x10FFFF, 0x3E8, 0x2710, 0x186A0, 0xF4240, 0x9FA6, 0xA0, 0x3E7, 0x270F, 0x1869F, 0xF423F,
 ];
 
 pub const LONE_SURROGATES: [u32; 4] = [0xD800, 0xDBFF, 0xDC00, 0xDFFF];
